@@ -8,37 +8,46 @@ REQUIRED_THEOREMS = ["Gv.Props.C01." + n for n in [
     "step_inv", "run_inv", "inv_of_empty_bag", "inv_of_empty_align", "lookup_paths_agree", "idByName_spec",
     "byName_found_iff", "add_wrong_length_rejected", "add_wrong_length_error_of_new_name",
     # rectangularity for all histories (+ the kernel-checked counterexample of the excluded case)
-    "step_rect", "run_rect", "rect_of_empty_align", "rows_have_reported_length", "translate_three_frames_not_rect",
+    "step_rect", "run_rect", "rect_of_empty_align", "rows_have_reported_length", "rows_have_reported_length_aligned",
+    "translate_three_frames_not_rect",
+    # the kind changes only through Unalign, and only from alignment to sequence set
+    "kind_preserved", "kind_only_decreases", "unalign_is_seqbag", "unalign_rows_of_distinct_names",
     "three_frames_same_count_iff",
     # names stay pairwise distinct unless the caller edits names
     "step_names_nodup", "run_names_nodup",
-    # refinement: Go-shaped container = plain list reference model, all 28 operations, all histories
+    # refinement: Go-shaped container = plain list reference model, all 31 operations, all histories
     "step_refines", "run_refines", "compress_empty_unchanged", "good_of_empty_bag", "good_of_empty_align", "obs_byName", "obs_idByName", "obs_length"]]
 LEVEL_TEXT = ("Lean theorems, all by induction over operation histories of any length and for arbitrary arguments: "
-              "(1) refinement `step_refines` / `run_refines`: for each of the 28 operations of the history language (add under the "
+              "(1) refinement `step_refines` / `run_refines`: for each of the 31 operations of the history language (add under the "
               "three duplicate-name policies, ignore, clear, append, concat, rename, appendId, cleanNames, trimNames, trimAuto, sort, "
               "permute=ShuffleSequences, filter, dedup, rmSeqs/RemoveGapSeqs, translate, clone, sample, toUpper, toLower, replace, "
-              "setChar, trimSeqs, autoAlpha, revcomp=ReverseComplement, replaceChar, rmGapSites=RemoveGapSites, compress=Compress), whenever the plain list-of-(name,sequence) reference model specifies the outcome, the "
+              "setChar, trimSeqs, autoAlpha, revcomp=ReverseComplement, replaceChar, rmGapSites=RemoveGapSites, compress=Compress, unalign=Unalign - after which the history continues on the NEW plain sequence set it returns, "
+              "renameRe=RenameRegexp with the values of the regular-expression substitution supplied per row, setAlpha=SetAlphabet), whenever the plain list-of-(name,sequence) reference model specifies the outcome, the "
               "implementation-shaped model (ordered rows with pointer ids + separate name index + allocation counter + cached "
               "alignment length) yields exactly that content (names, row order, residues, policy, alphabet, kind) and that status, and "
               "the strong invariant (index exact and pointing to the first row of each name, rectangular, alphabet never BOTH) holds "
               "again; `obs_byName`/`obs_idByName`/`obs_length` show every observation of the harness is a function of the abstraction; "
-              "(2) rectangularity `step_rect` / `run_rect` / `rows_have_reported_length`: the cached length equals the length of every "
+              "(2) rectangularity `step_rect` / `run_rect` / `rows_have_reported_length`: as long as the object is an alignment (`kind_preserved`: every history "
+              "without Unalign; `kind_only_decreases`: Unalign goes one way) the cached length equals the length of every "
               "row and is -1 iff there is no row, after every operation whatever its outcome, except the excluded cases (three-frame "
               "Translate of an alignment with L mod 3 != 2 - `translate_three_frames_not_rect` is the kernel-checked violation - and a "
               "Replace/Concat that itself returned an error); (3) `step_names_nodup` / `run_names_nodup`: names stay pairwise distinct "
-              "under every operation other than the caller's own name edits; (4) the weak representation invariant for all operations "
+              "under every operation other than the caller's own name edits (Unalign included: `unalign_rows_of_distinct_names` - the new set "
+              "shows exactly the degapped rows); (4) the weak representation invariant for all operations "
               "including name collisions made by the caller (`step_inv`/`run_inv`), agreement of the by-name access paths, rejection "
               "of a wrong-length sequence with the state unchanged. Tied to /repo by a differential correspondence on random histories "
               "that compares the full observation vector (iteration, by-index, by-name through the index and by linear scan, "
               "Sequences()) after every step.")
 LEVEL_NOTE = ("Trusted: Lean kernel; harness/oracle/driver; the hand-written model of seqbag.go/align.go is validated against the "
-              "implementation on generated histories only; regexp (CleanNames is modelled directly), fmt, sort.SliceStable, math/rand "
-              "(replica) are external.")
-TECHNIQUE = "Lean 4 proof (refinement of the Go-shaped container to a plain-list reference model for all 28 operations, representation / rectangularity / distinct-names invariants, all by induction over histories) + differential correspondence"
+              "implementation on generated histories only; regexp (CleanNames is modelled directly; for RenameRegexp the harness "
+              "evaluates Go's regexp on every name before the call and hands the values to the model in the step's status), fmt, "
+              "sort.SliceStable, math/rand (replica) are external.")
+TECHNIQUE = "Lean 4 proof (refinement of the Go-shaped container to a plain-list reference model for all 31 operations, representation / rectangularity / distinct-names invariants, all by induction over histories) + differential correspondence"
 RULE = ("random histories of 1..12 (quick) / 1..40 (thorough) operations over alignments (0..5 rows x 0..8 columns) and "
         "sequence sets with ragged lengths, duplicate names, special characters in names, all three duplicate-name policies, "
-        "boundary arguments; the full observation vector is compared after every operation; non-trivial = at least two "
+        "boundary arguments; stratum around Unalign / RenameRegexp (empty object, one row, all-gap rows, names made equal before "
+        "Unalign or by the expression, expressions that do not compile, then by-name accesses and alignment-only operations on the "
+        "sequence set); the full observation vector is compared after every operation; non-trivial = at least two "
         "state-changing operations")
 PARTIAL = ["the refinement theorem claims the outcome of a step only where the reference model specifies it (`Spec.stepOp` returns "
            "`some`); by design it returns `none` - and nothing is claimed, the history theorem `run_refines` stops there - for: a "
@@ -49,10 +58,13 @@ PARTIAL = ["the refinement theorem claims the outcome of a step only where the r
            "ShuffleSequences / Sample are modelled with their permutation supplied (Op.permute / Op.sample; the theorems assume it is a "
            "genuine permutation of the positions, `OpWF`/`OpWFR`); in the correspondence the oracle resolves it with the Go math/rand "
            "replica of C10 (that the replica's shuffle is a permutation for every seed is C10.shuffle_every_seed)",
-           "the history language (Lean `Op`, oracle decoder, generator) has 28 operations (ReverseComplement, ReplaceChar, "
-           "RemoveGapSites and Compress were added through the C06 / C12 / C13 models); RenameRegexp and Unalign (which returns "
-           "another container) are not among them (the harness has entry points for them, the Lean model and the theorems do not "
-           "cover them)"]
+           "the history language (Lean `Op`, oracle decoder, generator) has 31 operations (ReverseComplement, ReplaceChar, "
+           "RemoveGapSites and Compress through the C06 / C12 / C13 models; Unalign, whose result replaces the current object; "
+           "RenameRegexp; SetAlphabet). RenameRegexp is modelled from the point where the regular expression has been evaluated: `Op.renameRe ok "
+           "names` carries whether it compiled and the value of ReplaceAllString for every row (Go's regexp is external); the model "
+           "covers what the method does with those names - in-place rename, name map in row order, rebuildIndex, collisions kept. "
+           "NewSeqBag ends the process for an alphabet other than the three it knows: the model answers `EXIT` and the reference "
+           "leaves that step unspecified (unreachable: an alignment never carries BOTH)"]
 
 NAMES = ["a", "b", "c", "d", "Seq0000", "Seq0001", "a_0001", "x y", " lead", "n(1)", "p:q", "k,l", "t;u", "e.f", "long_name_here", "A"]
 NT = "ACGTacgtNn-RYK*?."
@@ -69,6 +81,16 @@ def prow(rows):
 
 def rseq(rng, alpha, L):
     return "".join(rng.choice(alpha) for _ in range(L))
+
+
+# regular expressions / replacements of `renamere` (Go syntax; the last ones do not compile)
+REGEXES = ["^", "$", "_0001$", "_[0-9]+$", "^(.)(.*)$", ".", ".*", "[a-z]+", "[A-Z]", "(a|b)", "^S", "\\d+", "[_:; ,.()]+", "x*", "q",
+           "^.", "(?i)seq", "e", "(", "[a", "*a", "a{2,1}", "\\"]
+REPLACES = ["", "X", "_", "$1", "${2}${1}", "$0$0", "$2", "n-$0", "p:q", "a", "$$", "${1}x"]
+
+
+def renamere_op(rng):
+    return "renamere:%s:%s" % (pct(rng.choice(REGEXES)), pct(rng.choice(REPLACES)))
 
 
 def gen_hist(rng, maxops):
@@ -147,7 +169,7 @@ def gen_hist(rng, maxops):
         elif k < 0.85:
             ops.append("clone")
         elif k < 0.865:
-            ops.append(rng.choice(["toupper", "tolower", "autoalpha"]))
+            ops.append(rng.choice(["toupper", "tolower", "autoalpha", "setalpha:%d" % rng.choice([0, 1, 1, 2, 3, -1, 7])]))
             changing += 1
         elif k < 0.875:
             ops.append("shuffle:%d" % rng.randint(0, 10 ** 6))
@@ -163,6 +185,12 @@ def gen_hist(rng, maxops):
             changing += 1
         elif k < 0.97:
             ops.append("trimseqs:%d:%d" % (rng.choice([-1, 0, 1, 2, curL[0], curL[0] + 1]), rng.randint(0, 1)))
+            changing += 1
+        elif k < 0.976:
+            ops.append("unalign")
+            changing += 1
+        elif k < 0.984:
+            ops.append(renamere_op(rng))
             changing += 1
         else:
             ops.append(rng.choice(["revcomp", "compress", "rmgapsites:%s:%d" % (rng.choice(["0", "1", "1/2", "1/3", "2/3"]), rng.randint(0, 1)),
@@ -229,11 +257,62 @@ def gen_columns(rng):
             "revcomp", "compress", "compress", "rmgapsites:%s:%d" % (rng.choice(["0", "1", "1/2", "1/3"]), rng.randint(0, 1)),
             "replacechar:%s:%d:%s" % (pct(rng.choice(pool + ["zz"])), rng.randint(-1, L), rng.choice("ACGT-Nn*")),
             "clear", "add:%s:%s" % (pct(rng.choice(pool)), rseq(rng, alpha, rng.choice([L, L, 1, 2]))), "toupper", "sort",
-            "dedup:0", "filter:0:100", "trimseqs:1:%d" % rng.randint(0, 1), "autoalpha"]))
+            "dedup:0", "filter:0:100", "trimseqs:1:%d" % rng.randint(0, 1), "autoalpha", "setalpha:%d" % rng.choice([0, 1, 1, 2])]))
     return Case("hist", ["A", alpha_id, prow(rows), ";".join(ops)], True, "hist-columns")
 
 
+def gen_unalign_rename(rng):
+    """histories around Unalign (a NEW sequence set replaces the alignment: the kind changes) and RenameRegexp (new names
+    computed by Go's regexp in the harness): empty object, one row, all-gap rows, rows made of gaps only in some columns,
+    names made equal BEFORE Unalign (the insertion into the new set renames them) or BY RenameRegexp (kept equal: the index
+    points to the first), expressions that do not compile; followed by by-name accesses, insertions of the old / new
+    names, and the alignment-only operations (answered `na` once the object is a sequence set)"""
+    kind = rng.choice("AAAB")
+    alpha_id = rng.choice([1, 1, 0, 3] if kind == "B" else [1, 1, 0, 3, 2])
+    alpha = "ARNDCQEGX-" if alpha_id == 0 else "ACGTacgtN-"
+    shape = rng.choice(["empty", "one", "allgap", "gapcols", "plain", "plain", "dups"])
+    L = rng.choice([0, 1, 2, 4, 6])
+    pool = rng.sample(NAMES + ["a_0002", "Seq0000_0001", "b_0001"], 5)
+    nrows = {"empty": 0, "one": 1}.get(shape, rng.randint(2, 5))
+    rows = []
+    for i in range(nrows):
+        ln = L if kind == "A" else rng.randint(0, 6)
+        if shape == "allgap" and rng.random() < 0.7:
+            sq = "-" * ln
+        elif shape == "gapcols":
+            sq = "".join(rng.choice(alpha) if j % 2 else "-" for j in range(ln))
+        else:
+            sq = "".join(rng.choice(alpha + "---") for _ in range(ln))
+        rows.append((rng.choice(pool) if shape == "dups" else pool[i % len(pool)], sq))
+    ops = []
+    pre = rng.random()
+    if pre < 0.35:
+        # two or more rows share a name when Unalign / RenameRegexp runs
+        olds = rng.sample(pool, rng.randint(2, 4))
+        tgt = rng.choice(pool + ["new1"])
+        ops.append("rename:" + "/".join(pct(o) + "/" + pct(tgt) for o in olds))
+    elif pre < 0.5:
+        ops.append(rng.choice(["clear", "ignore:1", "ignore:2", "sort", "compress", "rmgapsites:1:0", "autoalpha",
+                               "add:%s:%s" % (pct(rng.choice(pool)), rseq(rng, alpha, L))]))
+    for _ in range(rng.randint(1, 3)):
+        ops.append(rng.choice(["unalign", "unalign", renamere_op(rng), renamere_op(rng),
+                               "renamere:%s:%s" % (pct(rng.choice([".*", "^.*$", ".+", "[^_]*"])), pct(rng.choice(["X", "", "a", "$0"])))]))
+        if rng.random() < 0.6:
+            ops.append(rng.choice([
+                "add:%s:%s" % (pct(rng.choice(pool + ["X", "a_0001"])), rseq(rng, alpha, rng.choice([L, L, 0, 3]))),
+                "sort", "dedup:0", "dedup:1", "clone", "filter:1:-1", "filter:0:100", "cleannames", "trimauto:0", "toupper",
+                "append:" + prow([(rng.choice(pool), rseq(rng, alpha, L))]), "concat:" + prow([(rng.choice(pool), rseq(rng, alpha, 2))]),
+                "replacechar:%s:%d:%s" % (pct(rng.choice(pool + ["X"])), rng.randint(0, max(L, 1)), rng.choice("ACGT-")),
+                "setchar:%d:%d:N" % (rng.randint(0, 3), rng.randint(0, max(L, 1))), "trimseqs:1:0", "compress", "rmgapsites:0:0",
+                "rmgapseqs:1:0", "translate:0:0", "revcomp", "ignore:%d" % rng.randint(0, 2), "shuffle:%d" % rng.randint(0, 999),
+                "sample:%d:%d" % (rng.randint(1, 3), rng.randint(0, 999)), "autoalpha", "setalpha:%d" % rng.choice([0, 1, 2, 3]),
+                "rename:" + pct(rng.choice(pool)) + "/" + pct(rng.choice(pool))]))
+    return Case("hist", [kind, alpha_id, prow(rows), ";".join(ops)], True, "hist-unalign-rename-" + shape)
+
+
 def _gen_core(rng, tier):
+    for _ in range(400 if tier == "quick" else 4000):
+        yield gen_unalign_rename(rng)
     for _ in range(150 if tier == "quick" else 1500):
         yield gen_alias(rng)
     for _ in range(300 if tier == "quick" else 3000):
